@@ -8,7 +8,7 @@ LEVEL = dict(
     rule_text="in renumber_objects_with: objects are moved in two phases (a loop that removes from `objects` never inserts into it), an "
               "object is stored under exactly the id that references to it are rewritten to, references are rewritten by one traversal "
               "after each move using the same map (guarded lookup), bookmarks are renamed for every moved pair, and max_id is the last "
-              "assigned number; traverse_objects visits each reachable object once",
+              "assigned number; traverse_objects visits each reachable object once; the rename map is cleared between a traversal and the next pass that fills it; update_bookmark_pages recurses into children on both outcomes of the page test; the visited test of traverse_objects is keyed by the whole object id",
     explanation="Decides the structural conditions for an isomorphic renaming. Does not decide that the result is an isomorphism for "
                 "every graph (collisions between old and new numbers in the bookmark table, generations, dangling references).",
     trusted_base=["rustc MIR and callee resolution"],
